@@ -51,7 +51,7 @@ func OpenPoller() (poller *Poller, err error) {
 	}
 	var efd int
 	if efd, err = unix.Eventfd(0, unix.EFD_NONBLOCK|unix.EFD_CLOEXEC); err != nil {
-		_ = poller.Close()
+		_ = unix.Close(poller.fd) // poller.epa is not set yet, poller.Close() would dereference nil
 		poller = nil
 		err = os.NewSyscallError("eventfd", err)
 		return
